@@ -728,6 +728,12 @@ func runCLI(ctx context.Context, t interface {
 		}
 	} else {
 		p := c.Plant
+		if !verOK(p, c.Version) {
+			// the operator's table does not describe this configuration version (e.g. a rule that exists there
+			// only outside every category): the comparison with the API above is all that is asserted
+			r.Class("cli:plant-outside-its-versions")
+			return
+		}
 		exists := verOK(p, c.Version) && protogen.LintRuleExists(p.Rule, c.Version)
 		sel := &Case{}
 		for _, s := range c.Sites {
